@@ -31,3 +31,7 @@ package xuperos
 //@   at xmodel.GetTxOutputs assert outputs_are_the_sandbox_write_set: $0 == rwSet.WSet
 //@   at StateSandbox.RWSet assert sets_taken_after_the_flush: err == nil && sel(flushed, recv)
 //@   at contract.ToPbLimits assert limits_are_the_resources_used: true
+// Gas is charged request by request, each rounded up on its own - as the verification of
+// the assembled transaction charges it - from what that request used, at the chain's price.
+//@   local resourceUsed contract.Limits
+//@   at Limits.TotalGas assert gas_of_each_request_from_its_own_resources: recv.Cpu == resourceUsed.Cpu && recv.Memory == resourceUsed.Memory && recv.Disk == resourceUsed.Disk && recv.XFee == resourceUsed.XFee && $0 == gasPrice
